@@ -3,7 +3,7 @@
 (* checks for bias lists of length <= 2..3 over three criteria hold for      *)
 (* EVERY request: any number of biases, any probabilities and draws, any     *)
 (* non-empty criteria set, any pool of fresh ids.  (C07: Coherent,           *)
-(* SplitStable, Persistence; C08: FireRule, P1Always, P0Never, echo length,  *)
+(* SplitStable, Persistence; C08: FireRule, P1Always, P0Never, Echo,         *)
 (* SkipIsIdentity.)  Checked by `tlapm` from bin/check (family pipeline).    *)
 EXTENDS Decision, TLAPS
 
@@ -16,6 +16,9 @@ Book == /\ fired \in Seq(BOOLEAN)
         /\ i = Len(fired) + 1
         /\ Len(reports) = Len(fired)
         /\ pc \in {"validate", "parse", "bias", "respond", "done"}
+
+(* C08 echo: the report of every processed position names the bias of that position; a skipped bias reports null *)
+Echo == \A k \in 1..Len(reports) : reports[k].name = Enabled(req)[k].name /\ (~fired[k] => reports[k].props = "null")
 
 Inv == Coherent /\ SplitStable /\ Book /\ FireRule
 
@@ -61,6 +64,35 @@ THEOREM Safety == \A r : DSpec(r) => []Inv
 (* a draw stands for an interval [d/4, (d+1)/4) of [0,1): d \in 0..3 is the domain assumption *)
 LEMMA Corollaries == FireRule /\ (\A k \in DOMAIN fired : req.draws[k] \in 0..3) => P1Always /\ P0Never
   BY DEF FireRule, P1Always, P0Never
+
+(* C08 echo, inductive relative to the bookkeeping *)
+LEMMA EchoInit == \A r : DInit(r) => Echo
+  BY DEF DInit, Echo
+
+LEMMA EchoStep == Book /\ Echo /\ [DNext]_vars => Echo'
+<1> SUFFICES ASSUME Book, Echo, [DNext]_vars PROVE Echo' OBVIOUS
+<1>1 CASE Validate BY <1>1 DEF Validate, Echo
+<1>2 CASE Parse BY <1>2 DEF Parse, Echo
+<1>3 CASE Skip
+  <2>1 /\ reports' = Append(reports, [name |-> Enabled(req)[i].name, props |-> "null"]) /\ fired' = Append(fired, FALSE)
+       /\ req' = req /\ i = Len(fired) + 1 /\ Len(reports) = Len(fired) /\ fired \in Seq(BOOLEAN)
+       BY <1>3 DEF Skip, Book
+  <2> QED BY <2>1 DEF Echo
+<1>4 CASE Apply
+  <2>1 /\ \E x : reports' = Append(reports, [name |-> Enabled(req)[i].name, props |-> x]) /\ fired' = Append(fired, TRUE)
+       /\ req' = req /\ i = Len(fired) + 1 /\ Len(reports) = Len(fired) /\ fired \in Seq(BOOLEAN)
+       BY <1>4 DEF Apply, Book
+  <2> QED BY <2>1 DEF Echo
+<1>5 CASE Evaluate BY <1>5 DEF Evaluate, Echo
+<1>6 CASE Respond BY <1>6 DEF Respond, Echo
+<1>7 CASE UNCHANGED vars BY <1>7 DEF vars, Echo
+<1> QED BY <1>1, <1>2, <1>3, <1>4, <1>5, <1>6, <1>7 DEF DNext
+
+THEOREM SafetyEcho == \A r : DSpec(r) => [](Inv /\ Echo)
+<1> SUFFICES ASSUME NEW r PROVE DSpec(r) => [](Inv /\ Echo) OBVIOUS
+<1>1 DInit(r) => Inv /\ Echo BY InitInv, EchoInit
+<1>2 (Inv /\ Echo) /\ [DNext]_vars => (Inv /\ Echo)' BY StepInv, EchoStep DEF Inv
+<1> QED BY <1>1, <1>2, PTL DEF DSpec
 
 (* C07 action property: rewritten values of surviving criteria stay rewritten *)
 LEMMA PersistenceStep == [DNext]_vars => (touched \cap crit' \subseteq touched')
